@@ -1,6 +1,7 @@
 import HapModel.Drv.Util
 import HapModel.Advert
 import HapModel.AdvertSys
+import HapModel.AdvertLife
 namespace Hap.Drv.Advert
 open Lean Hap Hap.Drv Hap.Advert Hap.AdvertSys
 
@@ -50,6 +51,35 @@ def valOpOf (j : Json) : R (Nat × Nat × (String → String)) := do
   match j with
   | .arr #[a, i, .str v] => pure (← asNat a, ← asNat i, fun _ => v)
   | _ => throw "value op must be [aid, iid, value]"
+
+/-- the driver's stand-in for SHA-512 over the sorted JSON: the compact JSON text of the
+    value-free rendering (distinct renderings give distinct texts) -/
+def renderHash (r : NoVal String) : String := (jnoval r).compress
+
+/-- one operation of an accessory's life: ["restart", db] | ["value", aid, iid, v] | ["mutate", db] |
+    ["configChanged"] | ["persist"] -/
+def lifeOpOf (j : Json) : R (Hap.AdvertLife.Op String String) := do
+  match j with
+  | .arr #[.str "restart", .arr db] => pure (.restart (← db.toList.mapM accOf))
+  | .arr #[.str "mutate", .arr db] => do
+    let d ← db.toList.mapM accOf
+    pure (.mutate fun _ => d)
+  | .arr #[.str "value", a, i, .str v] => pure (.value (← asNat a) (← asNat i) fun _ => v)
+  | .arr #[.str "configChanged"] => pure .configChanged
+  | .arr #[.str "persist"] => pure .persist
+  | _ => throw "life op must be [restart, db] | [value, aid, iid, v] | [mutate, db] | [configChanged] | [persist]"
+
+/-- the life run op by op; per op: live c#, c# in the file, "file hash = live hash", and the
+    value-free rendering of the live database (compared with the real hash by equality classes) -/
+def lifeRun (l : Hap.AdvertLife.Life String String String) :
+    List (Hap.AdvertLife.Op String String) → List Json
+  | [] => []
+  | op :: rest =>
+    let l' := Hap.AdvertLife.step renderHash l op
+    Json.mkObj [("cfg", Json.num l'.st.cfg),
+                ("disk_cfg", jopt (fun (d : Cfg String) => Json.num d.cfg) l'.disk),
+                ("disk_synced", Json.bool (l'.disk.map (·.hsh) == some l'.st.hsh)),
+                ("hash_is_live", Json.bool (l'.st.hsh == some (renderHash (renderNoVal l'.db))))] :: lifeRun l' rest
 
 def clientOpt (j : Json) (k : String) : R (Option Nat) := do
   match j.getObjVal? k with
@@ -155,6 +185,16 @@ def handle (j : Json) : R Json := do
                       ("registered", jtxt (initialRecord info paired)),
                       ("adv", jtxt (advertised (initialRecord info paired) s.log)),
                       ("adv_sf", jopt Json.str (advertisedSf (initialRecord info paired) s.log))])
+  | "life" =>
+    -- the hash is the JSON text of the value-free rendering (collision-free)
+    let ops ← (← getArr j "ops").toList.mapM lifeOpOf
+    -- "cfg0": an earlier life left this number (and no hash) in the file; reachable from `life0`
+    -- by cfg0 - 1 `config_changed` calls
+    let l0 : Hap.AdvertLife.Life String String String :=
+      match j.getObjVal? "cfg0" with
+      | .ok (.num n) => { Hap.AdvertLife.life0 with disk := some { cfg := n.mantissa.toNat, hsh := none } }
+      | _ => Hap.AdvertLife.life0
+    pure (Json.mkObj [("ok", Json.arr (lifeRun l0 ops).toArray)])
   | "consts" =>
     -- the constants the model fixes, for comparison with the ones in the source
     pure (Json.mkObj [("MAX_CONFIG_VERSION", Json.num MAX_CONFIG_VERSION),
